@@ -83,6 +83,8 @@ pub fn build<'a>(kind: &str, v: &'a Vec<f64>, p: i64, q: i64) -> It<'a> {
         "pipe3" => fw(Box::new(v.titer().vshift(n, None).vabs().map(|x| x)).vclip(f64::NAN, f64::NAN).vshift(q as i32, None)),
         // the wrapper itself, on its concrete type: a source with a declared length
         "to_trust" => de(v.titer().to_trust(v.len())),
+        // ... around a source whose own size hint is (0, Some(len))
+        "to_trust_f" => de(v.titer().filter(|_| true).to_trust(v.len())),
         _ => panic!("harness: unknown kind {kind}"),
     }
 }
@@ -105,6 +107,7 @@ pub fn build_fwd<'a>(kind: &str, v: &'a Vec<f64>, p: i64, q: i64) -> Box<dyn Tru
         "pipe2" => v.titer().vshift(n, None).vshift(q as i32, None),
         "pipe3" => Box::new(v.titer().vshift(n, None).vabs().map(|x| x)).vclip(f64::NAN, f64::NAN).vshift(q as i32, None),
         "to_trust" => Box::new(v.titer().to_trust(v.len())),
+        "to_trust_f" => Box::new(v.titer().filter(|_| true).to_trust(v.len())),
         _ => panic!("harness: unknown kind {kind}"),
     }
 }
@@ -149,6 +152,18 @@ pub fn replay(args: &Args) {
             let h0 = it.hint();
             if h0 != (total, Some(total)) {
                 return Err(format!("announces {h0:?} before consumption, yields {total}"));
+            }
+            // the wrapper is an ExactSizeIterator: std adaptors stacked on it read len() (which
+            // demands lower == upper) when they are driven from the back
+            if kind == "to_trust" || kind == "to_trust_f" {
+                let stacked: Vec<(usize, f64)> = if kind == "to_trust" {
+                    src.titer().to_trust(src.len()).enumerate().rev().collect()
+                } else {
+                    src.titer().filter(|_| true).to_trust(src.len()).enumerate().rev().collect()
+                };
+                if stacked.len() != total || any_of(stacked.iter().enumerate(), |(j, (i, x))| *i != total - 1 - j || *x != src[*i]) {
+                    return Err(format!("enumerate().rev() over the wrapper gives {stacked:?}"));
+                }
             }
             let (mut kf, mut kb) = (0usize, 0usize);
             for (step, s) in sched.iter().enumerate() {
